@@ -243,7 +243,7 @@ def leg(ctx, rng, tmp, observe, what, families, which=None, n_per_family=1, prim
     kw = {} if which is None else {'which': which}
     count = 0
     guards = []
-    for fam in families:
+    for fam_pos, fam in enumerate(families):
         for rep in range(n_per_family):
             if fam in ('cf1d_desc', 'cf1d_int', 'cf1d_bounds'):
                 d = gen.cf1d(rng, ny=rng.randint(3, 5), nx=rng.randint(3, 5), bounds=(fam == 'cf1d_bounds'))
@@ -272,7 +272,7 @@ def leg(ctx, rng, tmp, observe, what, families, which=None, n_per_family=1, prim
             guards.append(d)
             if prepare is not None:
                 prepare(rng, d)
-            history(ctx, d, observe, what)
+            history(ctx, d, observe, what, rng=rng, tmp=tmp, fresh_check=(rep == 0 and fam_pos in (1, len(families) - 1)))
             # one-based meshes are padded with 0 every other time (no element has that number), otherwise with -1
             fill = 0 if (' si=1 ' in d.spec.get('label', '') + ' ' and rep % 2 == 0) else -1
             count_ds = getattr(ctx, '_traits_files', 0)
@@ -302,6 +302,18 @@ def leg(ctx, rng, tmp, observe, what, families, which=None, n_per_family=1, prim
                 if not same(got, want):
                     ctx.report('property', f'{what}: a dataset {name} is answered differently from the same content held plainly in '
                                f'memory - {first_difference(got, want)}', case)
+                    continue
+                # asked a second time the answer is the same (nothing was consumed or rewritten by the first question)
+                with warnings.catch_warnings():
+                    warnings.simplefilter('ignore')
+                    try:
+                        again = observe(ds)
+                    except Exception as e:      # noqa: BLE001
+                        ctx.report('property', f'{what}: the second question to a dataset {name} fails ({type(e).__name__}: {str(e)[:120]})', case)
+                        continue
+                if not same(again, want):
+                    ctx.report('property', f'{what}: asked a second time, a dataset {name} is answered differently - '
+                               f'{first_difference(again, want)}', case)
     model_guard(ctx, guards, what)
     return count
 
@@ -324,13 +336,108 @@ def changed_since(ds, snap):
     return None
 
 
-def history(ctx, d, observe, what):
-    """the answer for a dataset is the same the second time, after another dataset of the same shape and names was
-    processed in between, and asking leaves the dataset as it was (values, attributes, encodings)"""
+def fresh_interpreter_observation(ds, observer_name, tmp):
+    """what a fresh interpreter, which has seen nothing else, answers for this dataset (pickled over)"""
+    import json
+    import pickle
+    import subprocess
+    import sys
+    import tempfile
+    fd, path = tempfile.mkstemp(prefix='fresh_', suffix='.pkl', dir=tmp)
+    os.close(fd)
+    with open(path, 'wb') as f:
+        pickle.dump(ds, f)
+    code = ('import sys, json, pickle, warnings\n'
+            'warnings.simplefilter("ignore")\n'
+            'import dask\n'
+            'dask.config.set(scheduler="synchronous")\n'
+            'import traits\n'
+            f'ds = pickle.load(open({path!r}, "rb"))\n'
+            f'print("OBS" + json.dumps(traits.jsonable(getattr(traits, {observer_name!r})(ds))))\n')
+    env = dict(os.environ)
+    r = subprocess.run([sys.executable, '-W', 'ignore', '-c', code], capture_output=True, text=True, env=env, timeout=300)
+    os.remove(path)
+    line = next((ln for ln in r.stdout.splitlines() if ln.startswith('OBS')), None)
+    if line is None:
+        raise RuntimeError('fresh interpreter failed: ' + r.stderr[-300:])
+    return json.loads(line[3:])
+
+
+def jsonable(x):
+    if isinstance(x, dict):
+        return {str(k): jsonable(v) for k, v in x.items()}
+    if isinstance(x, (list, tuple)):
+        return [jsonable(v) for v in x]
+    if isinstance(x, (numpy.integer,)):
+        return int(x)
+    if isinstance(x, (numpy.floating,)):
+        return float(x)
+    if isinstance(x, numpy.bool_):
+        return bool(x)
+    return x
+
+
+def through_json(x):
+    import json
+    return json.loads(json.dumps(jsonable(x)))
+
+
+def battery(ds):
+    """other questions a user may ask of the same dataset first - also ones that are refused - and what he may do with the
+    answers (they are his: he may edit them)"""
+    e = ds.ems
+    with warnings.catch_warnings():
+        warnings.simplefilter('error')
+        try:
+            e.polygons          # a session that turns warnings into errors: the first attempt may fail
+        except Exception:       # noqa: BLE001
+            pass
+    with warnings.catch_warnings():
+        warnings.simplefilter('ignore')
+        for kind in e.grid_kinds:
+            for k in (0, 1, int(e.grid_size[kind]) - 1):
+                try:
+                    e.ravel_index(e.wind_index(k, grid_kind=kind))
+                except Exception:       # noqa: BLE001
+                    pass
+        for bad in (lambda: e.wind_index(10 ** 9), lambda: e.ravel_index(('no such kind', 0)), lambda: e.select_index(('edge', 10 ** 6)),
+                    lambda: e.get_index_for_point(__import__('shapely').Point(1e6, 1e6))):
+            try:
+                bad()
+            except Exception:       # noqa: BLE001
+                pass
+        gs = e.grid_size
+        if isinstance(gs, dict):
+            for k in list(gs):
+                gs[k] = 0           # the caller's own copy of the answer, scribbled on
+        sh = getattr(e, 'grid_shape', None)
+        if isinstance(sh, dict):
+            for k in list(sh):
+                sh[k] = ()
+        t = getattr(e, 'topology', None)
+        for name in ('face_face_array', 'face_edge_array', 'edge_face_array', 'edge_node_array', 'face_node_array'):
+            try:
+                getattr(t, name)
+            except Exception:       # noqa: BLE001
+                pass
+        try:
+            e.face_centres
+            e.strtree
+            e.bounds
+            list(e.depth_coordinates)
+        except Exception:       # noqa: BLE001
+            pass
+
+
+def history(ctx, d, observe, what, rng=None, tmp=None, fresh_check=False):
+    """the answer for a dataset is the same the second time, after other questions (some refused) were asked of it, after
+    other datasets - of the same shape and names, of another shape, a hair apart - were processed in between, and after its
+    data were edited in place it is the answer for the edited dataset; asking leaves the dataset as it was.  What is
+    compared with: a fresh copy, and (the first dataset of each check) a fresh interpreter that has seen nothing else."""
     base = d.ds
     case = {'dataset': d.spec['label'], 'observed': what, 'history': None}
     ctx.case((d.spec['label'], 'history', what), True)
-    ctx.count('history:same dataset again / after another dataset / input unchanged')
+    ctx.count('history:again / after other questions / after other datasets / after an edit / input unchanged')
     with warnings.catch_warnings():
         warnings.simplefilter('ignore')
         try:
@@ -346,6 +453,8 @@ def history(ctx, d, observe, what):
                 geometry_names.add(str(b))
         other = reverse_data(gen.shift_coordinates(base, dlon=1.0), geometry_names)
         other.encoding = {}
+        near = gen.shift_coordinates(base, dlon=2.0 ** -26, dlat=2.0 ** -26)        # the same model a hair (1.5e-8 degrees) away
+        near.encoding = {}
         steps = []
         try:
             steps.append(('the first time', observe(base)))
@@ -353,6 +462,10 @@ def history(ctx, d, observe, what):
             o_other = observe(other)
             steps.append(('again after a dataset of the same shape and names (moved one degree east, data reversed) was processed', observe(base)))
             ref_other = observe(other.copy(deep=True))
+            o_near = observe(near)
+            asked = snap['data'].copy(deep=True)
+            battery(asked)
+            steps.append(('after other questions, some of them refused, were asked of the same object first', observe(asked)))
         except Exception as e:      # noqa: BLE001
             import traceback
             where = ' <- '.join(f'{fr.name}:{fr.lineno}' for fr in traceback.extract_tb(e.__traceback__)[-3:])
@@ -371,6 +484,49 @@ def history(ctx, d, observe, what):
     ch = changed_since(base, snap)
     if ch:
         ctx.report('property', f'{what}: asking modified the dataset that was asked about: {ch}', dict(case, history='input unchanged'))
+        return
+    # ---- data edited in place between two questions: the second answer is for the dataset as it now is
+    with warnings.catch_warnings():
+        warnings.simplefilter('ignore')
+        edited = snap['data'].copy(deep=True)
+        try:
+            observe(edited)
+            changed_any = False
+            for v in list(edited.data_vars):
+                a = edited[v]
+                if str(v) in geometry_names or a.attrs.get('cf_role') or a.dtype.kind != 'f' or a.ndim == 0 or str(v) == 'Mesh2':
+                    continue
+                edited[v] = a + 100.0          # a new array under the same name (unit conversion, bias correction)
+                changed_any = True
+            if changed_any:
+                got = observe(edited)
+                want = observe(edited.copy(deep=True))
+                if not same(got, want):
+                    ctx.report('property', f'{what}: after the data variables of the dataset were replaced in place (+100) the same object is '
+                               f'still answered for the old data - {first_difference(got, want)}', dict(case, history='edited in place'))
+                    return
+        except Exception as e:      # noqa: BLE001
+            ctx.report('property', f'{what}: fails after an in-place edit of the data ({type(e).__name__}: {str(e)[:160]})', dict(case, history='edited in place'))
+            return
+    # ---- a fresh interpreter that has seen nothing else (once per check: it costs an interpreter start) - for this dataset after
+    # a dataset of another shape, and for its near twin
+    if rng is not None and tmp is not None and fresh_check:
+        name = observe.__name__
+        ctx.count('history:compared with a fresh interpreter')
+        with warnings.catch_warnings():
+            warnings.simplefilter('ignore')
+            try:
+                truth = fresh_interpreter_observation(snap['data'], name, tmp)
+                truth_near = fresh_interpreter_observation(near.copy(deep=True), name, tmp)
+            except Exception as e:      # noqa: BLE001
+                ctx.count(f'fresh interpreter not available ({type(e).__name__})')
+                return
+        if not same(through_json(fresh), truth):
+            ctx.report('property', f'{what}: in this session (other datasets were processed before) the dataset is answered differently than in a '
+                       f'fresh interpreter - {first_difference(through_json(fresh), truth)}', dict(case, history='fresh interpreter'))
+        elif not same(through_json(o_near), truth_near):
+            ctx.report('property', f'{what}: the same model moved by 2^-26 of a degree, processed after the original, is answered differently than '
+                       f'in a fresh interpreter - {first_difference(through_json(o_near), truth_near)}', dict(case, history='near twin'))
 
 
 def model_guard(ctx, datasets, what):
